@@ -470,19 +470,14 @@ class GlobProxy:
 # ---- procfs rendering helpers ------------------------------------------------------------
 
 
-def stat_record(k, pid, comm, state=b"S", fields=None, nfields=50):
-    """`pid (comm) state f3 f4 ...` per fs/proc/array.c; fields: {man_proc_position: value}."""
-    f = {i: 0 for i in range(4, nfields + 3)}
-    f.update(fields or {})
-    parts = [state if isinstance(state, (bytes, seq.SymSeq)) else state.encode()] + [k.num(f[i]) for i in range(4, nfields + 3)]
-    head = str(pid).encode() + b" (" + comm + b") "
-    body = b" ".join(p for p in parts if isinstance(p, bytes)) if all(isinstance(p, bytes) for p in parts) else None
-    if body is None:
-        out = head
-        for j, p in enumerate(parts):
-            out = out + (b" " if j else b"") + p
-        return out + b"\n"
-    return head + body + b"\n"
+def stat_record(k, pid, comm, state=b"S", fields=None, last=52):
+    """`pid (comm) state f4 f5 ... f<last>` per fs/proc/array.c; fields: {man_proc_position: value} (others 0).
+    comm may be bytes or a symbolic byte sequence; it is rendered raw, as the kernel does."""
+    f = {i: 0 for i in range(4, last + 1)}
+    f.update({i: v for i, v in (fields or {}).items() if i <= last})
+    state = state if isinstance(state, (bytes, seq.SymSeq)) else state.encode()
+    tail = state + b" " + b" ".join(k.num(f[i]) for i in range(4, last + 1)) + b"\n"
+    return str(pid).encode() + b" (" + comm + b") " + tail
 
 
 def add_process(k, pid, comm=b"cat", state=b"S", stat_fields=None, status=None, extra=None):
